@@ -169,6 +169,13 @@ pub fn price_world(rng: &mut Rng, coms: &[String], n_events: usize, day_span: u6
                 if rng.chance(1, 3) {
                     p.cost = Some(Exchange { total: false, expr: Expr::lit(&num(r + Dec::ONE), y) });
                 }
+                if rng.chance(1, 2) {
+                    // the lot was acquired on another day (annotation without any value): the price
+                    // this posting records is dated by its transaction all the same
+                    let ld = d.plus_days(rng.below(2 * day_span.max(2)) as i64 - day_span.max(2) as i64);
+                    p.lot_extra.push(format!("[{}]", ld.render(0)));
+                    p.lot_extra_first = rng.chance(1, 3);
+                }
                 t.postings.push(p);
                 t.postings.push(Posting::with_amount("Assets:B", &num(-(q * r)), y));
             }
